@@ -57,22 +57,46 @@ LAZY = ('/* C12: nothing of a Task runs before it is started: Schedule only buil
 
 
 def _lambda_to_branches(name, text):
-    """auto* core = [&] { ... return X; ... }();   ->   Core* core; { ... core = X; ... }"""
-    m = re.search(r'auto\s*\*\s*core\s*=\s*\[&\]\s*\{', text)
+    """auto* core = [&] { ... return X; ... }();   ->   Core* core; { ... core = X; ... }
+    also accepted: the lambda bound to a name first (`auto mk = [&] {...}; auto* core = mk();`), and any name for the variable (it is renamed to `core`, which the rules speak about)"""
+    m = re.search(r'auto\s*\*\s*(\w+)\s*=\s*\[&\]\s*\{', text)
+    lam_name = None
     if not m:
-        raise ExtractionBreak('%s: `auto* core = [&] { ... }();` not found' % name)
+        m = re.search(r'(?:const\s+)?auto\s+(\w+)\s*=\s*\[&\]\s*\{', text)
+        if not m:
+            raise ExtractionBreak('%s: the lambda that makes the core was not found' % name)
+        lam_name = m.group(1)
     ob = m.end() - 1
     cb = match_brace(text, ob)
-    tail = re.match(r'\s*\(\s*\)\s*;', text[cb + 1:])
-    if not tail:
-        raise ExtractionBreak('%s: the lambda is not invoked at once' % name)
+    if lam_name is None:
+        var = m.group(1)
+        tail = re.match(r'\s*\(\s*\)\s*;', text[cb + 1:])
+        if not tail:
+            raise ExtractionBreak('%s: the lambda is not invoked at once' % name)
+        rest = text[cb + 1 + tail.end():]
+    else:
+        tail = re.match(r'\s*;', text[cb + 1:])
+        if not tail:
+            raise ExtractionBreak('%s: the named lambda is not a plain declaration' % name)
+        rest = text[cb + 1 + tail.end():]
+        calls = list(re.finditer(r'auto\s*\*\s*(\w+)\s*=\s*%s\s*\(\s*\)\s*;' % re.escape(lam_name), rest))
+        if len(calls) != 1 or len(re.findall(r'\b%s\b' % re.escape(lam_name), rest)) != 1:
+            raise ExtractionBreak('%s: the named lambda is not called exactly once as `auto* x = %s();`' % (name, lam_name))
+        var = calls[0].group(1)
+        if rest[:calls[0].start()].strip():
+            raise ExtractionBreak('%s: statements between the lambda and its call' % name)
+        rest = rest[calls[0].end():]
     inner = text[ob + 1:cb]
     # every `return X;` must be the last statement of its block
     for r in re.finditer(r'\breturn\b[^;]*;', inner):
         if not re.match(r'\s*\}', inner[r.end():]):
             raise ExtractionBreak('%s: a return of the core lambda is not the last statement of its branch' % name)
     inner = re.sub(r'\breturn\b', 'core =', inner)
-    return text[:m.start()] + 'Core* core = 0; {' + inner + '}' + text[cb + 1 + tail.end():]
+    if var != 'core':
+        if re.search(r'\bcore\b', rest):
+            raise ExtractionBreak('%s: both `%s` and `core` are used' % (name, var))
+        rest = re.sub(r'\b%s\b' % re.escape(var), 'core', rest)
+    return text[:m.start()] + 'Core* core = 0; {' + inner + '}' + rest
 
 
 def jobs(ctx):
